@@ -81,10 +81,15 @@ def cfStep (toks : List String) : String :=
   let (reps, call) := match toks with
     | "rep" :: n :: rest => (n.toNat?.getD 1, rest)
     | _ => (1, toks)
+  let (pre, call) := match call with
+    | "pre" :: n :: rest => (n.toNat?.getD 0, rest)
+    | _ => (0, call)
   match cfCall call with
   | none => "bad-op"
   | some (res, script) =>
-    let st0 : Scratch.St := { arena := Scratch.fresh }
+    -- the caller's own scratch allocation, made before the accounting starts
+    let st0 : Scratch.St := if pre = 0 then { arena := Scratch.fresh }
+      else { arena := ((({ arena := Scratch.fresh } : Scratch.St).alloc pre).1).arena }
     match repeatScript script reps st0 with
     | none => res ++ " SCRATCH-REWIND-FAILED"
     | some st =>
